@@ -44,6 +44,9 @@ func VerifyFunc(p *Prog, fi *FuncInfo, modeOverride string) *VC {
 				vc.oldVals = map[string]bool{}
 			}
 			vc.oldVals[tv.S] = true
+			if sl, ok := pv.Type().Underlying().(*types.Slice); ok && structOf(sl.Elem()) == nil {
+				vc.paramSlices = append(vc.paramSlices, paramSlice{tv, vc.elemKey(sl.Elem())})
+			}
 		}
 		if sv, ok := v.(*StructV); ok {
 			// struct parameter: boxed local copy (allocated before alloc0 would make it look caller-visible; allocate fresh)
